@@ -1,7 +1,9 @@
 package main
 
 import (
+	"go/token"
 	"bytes"
+	"crypto/sha1"
 	"context"
 	"fmt"
 	"go/types"
@@ -324,8 +326,48 @@ func (E *Engine) verifyFunc(key string) *FuncResult {
 	sort.Strings(fr.Trusted)
 	sort.Strings(fr.Models)
 	fulls := make([]string, len(x.paths))
+	// identical (prefix, check) pairs occur in many paths: solve each once
+	type owner struct{ path, id int }
+	seenChk := map[[20]byte]owner{}
+	dupOf := make([]map[int]owner, len(x.paths))
 	for i, p := range x.paths {
-		fulls[i] = head + lits + spec + "; ---- path\n" + p.Script
+		dupOf[i] = map[int]owner{}
+		lines := strings.Split(p.Script, "\n")
+		var out []string
+		h := sha1.New()
+		for j := 0; j < len(lines); j++ {
+			l := lines[j]
+			if strings.HasPrefix(l, "(echo \"CHK ") {
+				var id int
+				fmt.Sscanf(l, "(echo \"CHK %d\")", &id)
+				e := j + 1
+				for e < len(lines) && !strings.HasPrefix(lines[e], "(pop 1)") && !strings.HasPrefix(lines[e], "(echo \"unsat\")") {
+					e++
+				}
+				blk := lines[j+1 : e+1]
+				hh := sha1.New()
+				var cur [20]byte
+				copy(cur[:], h.Sum(nil))
+				hh.Write(cur[:])
+				for _, b := range blk {
+					hh.Write([]byte(b))
+				}
+				var key [20]byte
+				copy(key[:], hh.Sum(nil))
+				if o, ok := seenChk[key]; ok {
+					dupOf[i][id] = o
+				} else {
+					seenChk[key] = owner{i, id}
+					out = append(out, lines[j:e+1]...)
+				}
+				j = e
+				continue
+			}
+			h.Write([]byte(l))
+			h.Write([]byte{10})
+			out = append(out, l)
+		}
+		fulls[i] = head + lits + spec + "; ---- path\n" + strings.Join(out, "\n")
 	}
 	fr.Scripts = fulls
 	locked = false
@@ -349,6 +391,16 @@ func (E *Engine) verifyFunc(key string) *FuncResult {
 		}(i, p, full)
 	}
 	wg.Wait()
+	for i := range results {
+		for j := range results[i] {
+			if o, ok := dupOf[i][results[i][j].Check.ID]; ok {
+				src := results[o.path][o.id]
+				results[i][j].Status = src.Status
+				results[i][j].Solver = src.Solver
+				results[i][j].Detail = "same as path " + fmt.Sprint(o.path) + ": " + src.Detail
+			}
+		}
+	}
 	for i, rs := range results {
 		for _, r := range rs {
 			fr.Checks++
@@ -381,8 +433,88 @@ func (E *Engine) verifyFunc(key string) *FuncResult {
 			ob.Proved = !ob.Vacuous
 		}
 	}
+	if ct != nil && ct.FunctionOf != "" {
+		name := key + "/determinism"
+		ob := &ObResult{Name: name, Func: key, Subs: 1, Proved: true, BySolver: map[string]int{"syntactic": 1}}
+		if why := E.nondeterminism(fn); why != "" {
+			ob.Proved = false
+			ob.Fails = []SubResult{{Check: Check{Ob: name, Note: "the function must be deterministic for `function " + ct.FunctionOf + "`"}, Status: "refuted", Detail: why}}
+		}
+		fr.Obs[name] = ob
+		fr.Checks++
+	}
 	fr.Seconds = time.Since(t0).Seconds()
 	return fr
+}
+
+// nondeterminism: a syntactic reason why the result of fn might not be a function of its
+// arguments and the heap it is given ("" if none): map iteration, goroutines, select, channel
+// operations, reads of mutable package-level variables, calls outside the modelled library.
+func (E *Engine) nondeterminism(fn *ssa.Function) string {
+	fs := []*ssa.Function{fn}
+	for f := range E.reach(fn) {
+		fs = append(fs, f)
+	}
+	sort.Slice(fs, func(i, j int) bool { return funcKey(fs[i]) < funcKey(fs[j]) })
+	for _, f := range fs {
+		for _, b := range f.Blocks {
+			for _, in := range b.Instrs {
+				switch in := in.(type) {
+				case *ssa.Range:
+					if _, ok := in.X.Type().Underlying().(*types.Map); ok {
+						return fmt.Sprintf("%s ranges over a map at %s", funcKey(f), E.P.Fset.Position(in.Pos()))
+					}
+				case *ssa.Go, *ssa.Select, *ssa.Send:
+					return fmt.Sprintf("%s uses concurrency at %s", funcKey(f), E.P.Fset.Position(in.Pos()))
+				case *ssa.UnOp:
+					if g, ok := in.X.(*ssa.Global); ok && in.Op == token.MUL {
+						if strings.HasPrefix(g.Pkg.Pkg.Path(), modPath) {
+							if _, isMap := g.Type().(*types.Pointer).Elem().Underlying().(*types.Map); isMap && E.globalMapEntries(g) != nil && !E.globalWritten(g) {
+								continue
+							}
+							return fmt.Sprintf("%s reads package variable %s at %s", funcKey(f), g.Name(), E.P.Fset.Position(in.Pos()))
+						}
+					}
+				case *ssa.Store:
+					if g, ok := in.Addr.(*ssa.Global); ok {
+						return fmt.Sprintf("%s writes package variable %s", funcKey(f), g.Name())
+					}
+				case ssa.CallInstruction:
+					c := in.Common()
+					if sc := c.StaticCallee(); sc != nil && !strings.HasPrefix(calleePkgPath(sc), modPath) {
+						if findLibModel(funcKey(sc)) == nil {
+							return fmt.Sprintf("%s calls %s, which has no model", funcKey(f), funcKey(sc))
+						}
+					}
+				}
+			}
+		}
+	}
+	return ""
+}
+
+// globalWritten: some function of the module other than the package initialiser stores to g or updates the map it holds.
+func (E *Engine) globalWritten(g *ssa.Global) bool {
+	for _, f := range E.P.Funcs {
+		if f.Name() == "init" && f.Signature.Recv() == nil {
+			continue
+		}
+		for _, b := range f.Blocks {
+			for _, in := range b.Instrs {
+				switch in := in.(type) {
+				case *ssa.Store:
+					if in.Addr == g {
+						return true
+					}
+				case *ssa.MapUpdate:
+					if u, ok := in.Map.(*ssa.UnOp); ok && u.X == g {
+						return true
+					}
+				}
+			}
+		}
+	}
+	return false
 }
 
 func (E *Engine) usesOfCallees(fn *ssa.Function) []string {
@@ -505,6 +637,10 @@ func (E *Engine) solvePath(key string, pi int, p *PathResult, full string) []Sub
 	for i := range out {
 		c := p.Checks[i]
 		if c.Guard {
+			continue
+		}
+		if !strings.Contains(full, fmt.Sprintf("(echo \"CHK %d\")", c.ID)) {
+			out[i].Status = "dup"
 			continue
 		}
 		if out[i].Status == "unsat" {
